@@ -451,6 +451,31 @@ fn search_secret() -> (usize, Option<Value>) {
             Ok(ok) => if ok != (m >= 4) { return (n, Some(json!({"fn": "KSecretKey::<M>::from_str", "M": m, "input": "", "real": ok, "spec": m >= 4}))); }
         }
     }
+    // key derivation against an independent HMAC chain, including years below 1000 (the date text is always eight digits)
+    for (y, m, d) in [(2015i32, 8u32, 30u32), (999, 12, 31), (476, 2, 29), (1, 1, 1), (9999, 12, 31), (2000, 2, 29)] {
+        for (region, service) in [("us-east-1", "service"), ("", "s3"), ("eu-west-1", "")] {
+            n += 1;
+            let date = chrono::NaiveDate::from_ymd_opt(y, m, d).unwrap();
+            let text = format!("{:04}{:02}{:02}", y, m, d);
+            let k = KSecretKey::<44>::from_str(SECRET).unwrap();
+            let kd = hmac(format!("AWS4{}", SECRET).as_bytes(), text.as_bytes());
+            let kr = hmac(&kd, region.as_bytes());
+            let ks = hmac(&kr, service.as_bytes());
+            let kg = hmac(&ks, b"aws4_request");
+            let real_d = k.to_kdate(date);
+            let real_r = real_d.to_kregion(region);
+            let real_s = real_r.to_kservice(service);
+            let real_g = real_s.to_ksigning();
+            let shortcut = k.to_ksigning(date, region, service);
+            let bad = if real_d.as_ref() != kd.as_slice() { Some("to_kdate") } else if real_r.as_ref() != kr.as_slice() { Some("to_kregion") }
+                else if real_s.as_ref() != ks.as_slice() { Some("to_kservice") } else if real_g.as_ref() != kg.as_slice() { Some("to_ksigning") }
+                else if shortcut.as_ref() != kg.as_slice() || k.to_kregion(date, region).as_ref() != kr.as_slice() || k.to_kservice(date, region, service).as_ref() != ks.as_slice() { Some("shortcut from the secret key") }
+                else if real_d.to_ksigning(region, service).as_ref() != kg.as_slice() || real_d.to_kservice(region, service).as_ref() != ks.as_slice() || real_r.to_ksigning(service).as_ref() != kg.as_slice() { Some("shortcut from a derived key") } else { None };
+            if let Some(which) = bad {
+                return (n, Some(json!({"fn": which, "date": text, "region": region, "service": service, "real": "differs from HMAC chain AWS4+secret -> date(YYYYMMDD) -> region -> service -> aws4_request"})));
+            }
+        }
+    }
     (n, None)
 }
 /// end-to-end with the independent reference signer. `what`: "accept" (C02: reference-signed requests are accepted), "forge" (C01: a request
@@ -499,6 +524,18 @@ fn search_roundtrip(what: &str) -> (usize, Option<Value>) {
                                 let res = validate(&r3, now, "us-east-1", "service", SignatureOptions::default());
                                 if res.is_ok() {
                                     return (n, Some(json!({"fn": "sigv4_validate_request", "case": "accepted although the credential scope date is not the request's UTC date as text", "credential_date": bad_date})));
+                                }
+                            }
+                            // credential arity: anything but exactly five parts is an IncompleteSignature (400), through the real entry point
+                            for scope in ["20150830/us-east-1/service/aws4_request/extra", "20150830/us-east-1/service/aws4_request/", "20150830/us-east-1/service", "20150830/us-east-1/service/aws4_request/a/b/c"] {
+                                n += 1;
+                                let sts = format!("AWS4-HMAC-SHA256\n{}\n{}\n{}", ts, scope, sha_hex(&creq));
+                                let sig = hex::encode(hmac(&signing_key("20150830", "us-east-1", "service"), sts.as_bytes()));
+                                let mut r3 = Req { method: r2.method, path: r2.path.clone(), query: r2.query.clone(), headers: r2.headers.clone(), body: vec![] };
+                                r3.headers.push(("Authorization".into(), format!("AWS4-HMAC-SHA256 Credential={}/{}, SignedHeaders=host;x-amz-date, Signature={}", AKID, scope, sig)));
+                                let res = validate(&r3, now, "us-east-1", "service", SignatureOptions::default());
+                                if !matches!(&res, Err(e) if e.starts_with("IncompleteSignature:")) {
+                                    return (n, Some(json!({"fn": "sigv4_validate_request", "case": "credential without exactly five parts must be IncompleteSignature", "credential_scope": scope, "real": format!("{:?}", res)})));
                                 }
                             }
                         }
@@ -974,6 +1011,41 @@ fn search_content_type() -> (usize, Option<Value>) {
     if res == Err("PANIC".to_string()) {
         return (n, Some(json!({"fn": "sigv4_validate_request", "case": "oversized folded form", "real": "PANIC"})));
     }
+    // byte-order marks are body bytes like any other: a UTF-8 BOM belongs to the first parameter name, UTF-16 text is not UTF-8
+    for (body, expect_query, err) in [
+        (b"\xEF\xBB\xBFa=b".to_vec(), "%EF%BB%BFa=b", ""),
+        (b"\xFF\xFEa\x00=\x00b\x00".to_vec(), "", "InvalidBodyEncoding"),
+        (b"\xFE\xFF\x00a\x00=\x00b".to_vec(), "", "InvalidBodyEncoding"),
+    ] {
+        for ct in ["application/x-www-form-urlencoded", "application/x-www-form-urlencoded; charset=utf-8"] {
+            n += 1;
+            let mut r = Req { method: "POST", path: "/".into(), query: "".into(), headers: vec![("Host".into(), "example.amazonaws.com".into()), ("Content-Type".into(), ct.into())], body: body.clone() };
+            {
+                let mut merged = Req { method: "POST", path: "/".into(), query: expect_query.into(), headers: r.headers.clone(), body: vec![] };
+                sign_header(&mut merged, &ts, "us-east-1", "service", false, b"");
+                r.headers = merged.headers;
+            }
+            let res = validate(&r, now, "us-east-1", "service", SignatureOptions::url_encode_form());
+            let ok = if err.is_empty() { matches!(&res, Ok((uri, 0)) if uri.contains(expect_query)) } else { matches!(&res, Err(e) if e.starts_with(err)) };
+            if !ok {
+                return (n, Some(json!({"fn": "sigv4_validate_request", "case": "form body starting with a byte-order mark", "body_hex": hex::encode(&body), "content_type": ct,
+                    "expected": if err.is_empty() { format!("folded as {}", expect_query) } else { err.to_string() }, "real": format!("{:?}", res)})));
+            }
+        }
+    }
+    // long client-supplied charset labels with a two-byte character at every offset: refused, never a panic
+    for off in 0..130usize {
+        n += 1;
+        let label: String = std::iter::repeat('x').take(off).chain(std::iter::once('\u{e9}')).chain(std::iter::repeat('y').take(130 - off)).collect();
+        let mut r = Req { method: "POST", path: "/".into(), query: "".into(), headers: vec![("Host".into(), "example.amazonaws.com".into())], body: b"a=b".to_vec() };
+        sign_header(&mut r, &ts, "us-east-1", "service", false, b"a=b");
+        // http header values are bytes: the Latin-1 byte 0xE9 (the crate reads header values as Latin-1)
+        let raw: Vec<u8> = format!("application/x-www-form-urlencoded; charset=").into_bytes().into_iter().chain(label.chars().map(|c| c as u32 as u8)).collect();
+        let res = validate_raw_header(&r, "content-type", &raw, now, SignatureOptions::url_encode_form());
+        if !matches!(&res, Err(e) if e.starts_with("InvalidBodyEncoding:")) {
+            return (n, Some(json!({"fn": "sigv4_validate_request", "case": "131-byte charset label with a Latin-1 byte", "offset_of_0xE9": off, "expected": "InvalidBodyEncoding", "real": format!("{:?}", res)})));
+        }
+    }
     (n, None)
 }
 /// C11 / C19: the presigned carrier with X-Amz-SignedHeaders listed unsorted; repeated X-Amz-Security-Token; Date and X-Amz-Date both present
@@ -1021,6 +1093,61 @@ fn search_carriers() -> (usize, Option<Value>) {
     (n, None)
 }
 /// C15: the three body conversions shipped with the crate
+/// like validate(), with one extra header whose value is given as raw bytes (http header values need not be UTF-8)
+fn validate_raw_header(r: &Req, name: &'static str, value: &[u8], now: DateTime<Utc>, options: SignatureOptions) -> Result<(String, usize), String> {
+    let mut uri = r.path.clone();
+    if !r.query.is_empty() { uri.push('?'); uri.push_str(&r.query); }
+    let mut b = Request::builder().method(r.method).uri(uri);
+    for (k, v) in &r.headers { b = b.header(k.as_str(), v.as_str()); }
+    b = b.header(name, http::HeaderValue::from_bytes(value).map_err(|e| format!("http: {}", e))?);
+    let req = b.body(Bytes::from(r.body.clone())).map_err(|e| format!("http: {}", e))?;
+    let rt = tokio::runtime::Builder::new_current_thread().build().unwrap();
+    let mut svc = service_for_signing_key_fn(provider);
+    let res = std::panic::catch_unwind(std::panic::AssertUnwindSafe(|| {
+        rt.block_on(sigv4_validate_request(req, "us-east-1", "service", &mut svc, now, &VecSignedHeaderRequirements::default(), options))
+    }));
+    match res {
+        Err(_) => Err("PANIC".into()),
+        Ok(Ok((parts, body, _))) => Ok((parts.uri.to_string(), body.len())),
+        Ok(Err(e)) => Err(match e.downcast_ref::<scratchstack_aws_signature::SignatureError>() { Some(se) => format!("{}: {}", kind(se), se), None => format!("non-SignatureError: {}", e) }),
+    }
+}
+/// C15: the principal and the session data the provider supplies come back unchanged
+fn search_identity() -> (usize, Option<Value>) {
+    use scratchstack_aws_principal::{Principal, SessionData, SessionValue, User};
+    let (ts, now) = ts_now();
+    let mut n = 0;
+    for nvals in [0usize, 1, 3] {
+        n += 1;
+        let mut r = Req { method: "GET", path: "/".into(), query: "".into(), headers: vec![("Host".into(), "example.amazonaws.com".into())], body: vec![] };
+        sign_header(&mut r, &ts, "us-east-1", "service", false, b"").unwrap();
+        let principal = Principal::from(vec![User::new("aws", "123456789012", "/", "user").unwrap().into()]);
+        let mut sd = SessionData::new();
+        for i in 0..nvals { sd.insert(&format!("aws:key{}", i), SessionValue::String(format!("value{}", i))); }
+        let (p2, sd2) = (principal.clone(), sd.clone());
+        let prov = move |req: GetSigningKeyRequest| { let (p, s) = (p2.clone(), sd2.clone()); async move {
+            let k = KSecretKey::<44>::from_str(SECRET).unwrap();
+            let sk = k.to_ksigning(req.request_date(), req.region(), req.service());
+            Ok::<_, BoxError>(GetSigningKeyResponse::builder().principal(p).session_data(s).signing_key(sk).build().unwrap())
+        }};
+        let mut b = Request::builder().method(r.method).uri(r.path.clone());
+        for (k, v) in &r.headers { b = b.header(k.as_str(), v.as_str()); }
+        let req = b.body(Bytes::new()).unwrap();
+        let rt = tokio::runtime::Builder::new_current_thread().build().unwrap();
+        let mut svc = service_for_signing_key_fn(prov);
+        let res = rt.block_on(sigv4_validate_request(req, "us-east-1", "service", &mut svc, now, &VecSignedHeaderRequirements::default(), SignatureOptions::default()));
+        match res {
+            Ok((_, _, resp)) => {
+                if resp.principal() != &principal || resp.session_data() != &sd {
+                    return (n, Some(json!({"fn": "sigv4_validate_request / From<GetSigningKeyResponse>", "case": "identity pass-through", "session_values": nvals,
+                        "real": format!("principal {:?}, session data {:?}", resp.principal(), resp.session_data()), "expected": format!("principal {:?}, session data {:?}", principal, sd)})));
+                }
+            }
+            Err(e) => return (n, Some(json!({"fn": "sigv4_validate_request", "case": "identity pass-through: reference-signed request refused", "real": format!("{}", e)}))),
+        }
+    }
+    (n, None)
+}
 fn search_into_bytes() -> (usize, Option<Value>) {
     use scratchstack_aws_signature::IntoRequestBytes;
     let rt = tokio::runtime::Builder::new_current_thread().build().unwrap();
@@ -1259,6 +1386,7 @@ fn searches_for(pid: &str, strict_d6: bool) -> Vec<(&'static str, (usize, Option
     }
     if all || pid == "C15" {
         v.push(("into_request_bytes", search_into_bytes()));
+        v.push(("identity_passthrough", search_identity()));
     }
     if all || pid == "C04" {
         v.push(("time_window", search_time("C04")));
@@ -1312,7 +1440,7 @@ fn main() {
             let pid = args.get(2).map(|s| s.as_str()).unwrap_or("");
             let mut rs: Vec<(&'static str, (usize, Option<Value>))> = Vec::new();
             if pid == "C12" { rs.push(("content_type_and_fold_edges", search_content_type())); }
-            if pid == "C15" { rs.push(("into_request_bytes", search_into_bytes())); }
+            if pid == "C15" { rs.push(("into_request_bytes", search_into_bytes())); rs.push(("identity_passthrough", search_identity())); }
             if pid == "C05" { rs.push(("requirement_mutators", search_requirement_mutators())); }
             if pid == "C16" { rs.push(("calendar_exhaustive", calendar_exhaustive())); rs.push(("regex_transcription", regex_transcription_crosscheck(200_000))); }
             let cases: usize = rs.iter().map(|r| r.1 .0).sum();
